@@ -140,7 +140,7 @@ def anc_arg(code, alleles):
 class Ctx:
     """One marginal tree of one member: the real Tree and the reference view of it."""
 
-    def __init__(self, m, ti):
+    def __init__(self, m, ti, reuse=None):
         self.m = m
         self.ti = ti
         self.rts = RefTS(m.times, m.flags, m.edges(), m.L)
@@ -151,6 +151,19 @@ class Ctx:
         self.par = self.rts.parent_map(self.pos)
         self.rt = RefTree(self.rts, self.par)
         self.samples = list(m.samples)
+        if reuse is not None:
+            # the SAME Tree object that answered the queries on the previous marginal tree, moved here by
+            # seek_index / seek: anything remembered from the earlier queries must not leak into these
+            self.ts = reuse.ts
+            self.tree = reuse.tree
+            if ti % 2:
+                self.tree.seek_index(ti)
+            else:
+                self.tree.seek(self.pos)
+            if self.tree.index != ti:
+                raise RuntimeError("harness: seek did not reach the tree (C06 territory)")
+            self.tables = None
+            return
         self.ts = m.ts()
         if [int(x) for x in self.ts.samples()] != self.samples or self.ts.num_trees != len(ivs):
             raise RuntimeError("harness: samples()/num_trees differ from the member (C01 territory)")
@@ -330,7 +343,7 @@ def check_member(m, spec, acc, only_tree=None, only_geno=None, only_anc=None, on
     for ti in range(ctx0.num_trees):
         if only_tree is not None and ti != only_tree:
             continue
-        ctx = ctx0 if ti == 0 else Ctx(m, ti)
+        ctx = ctx0 if ti == 0 else Ctx(m, ti, reuse=ctx0 if only_tree is None else None)
         tcase = dict(base, tree=ti)
         if (spec.get("reject") and only_geno is None) or only_reject:
             rejections(ctx, acc, tcase, only_reject)
